@@ -205,7 +205,7 @@ def judge_group(g):
     return v, len(g["variants"])
 
 
-ENDINGS = ["\n", "", "\r", "\r\n", "\n\x00", "\n\n", "\n20 A=1\n", "\n \n"]
+ENDINGS = ["\n", "", "\r", "\r\n", "\n\x00", "\x00", "\n\n", "\n20 A=1\n", "\n \n"]
 
 
 def judge_content(c):
@@ -221,6 +221,8 @@ def judge_content(c):
             out.append(("content-layout-refused", f"{text!r}: {r.kind}"))
         elif want not in r.text:
             out.append(("content-blanks-changed", f"{text!r}: expected {want!r} verbatim in {r.text!r}"))
+        elif "\x00" in r.text:
+            out.append(("trailing-nul-kept", f"{text!r}: the trailing NUL is part of the output {r.text!r}"))
     return out[:2]
 
 
